@@ -327,7 +327,7 @@ GPRE = "int n = 2\nint array A =\n    1, 2, 3, 4\n"
 GDECLS = [("decl", "int", "n", N("2")), ("arr", "int", "A", None, [[N("1"), N("2"), N("3"), N("4")]])]
 
 
-CYCLE = {"INT": ["2", "3", "1"], "FLOAT": ["0.5", "1.5", "0.25"], "COMPLEX": ["1+2j", "3-1j", "0.5j"]}
+CYCLE = {"INT": ["2", "3", "7"], "FLOAT": ["0.5", "1.5", "0.25"], "COMPLEX": ["1+2j", "3-1j", "0.5j"]}
 
 
 def gtexts(toks):
@@ -422,6 +422,24 @@ def gcheck(toks):
                     regs_and_params = True
     if regs_and_params:
         return "skip:parameter-and-register-in-one-expression"
+    # an expression whose value does not depend on a symbol written in it (1 ** q0, q0 * (2 - 2), {n} - {n}): the symbol
+    # cancels, and what a cancelled register or parameter leaves behind is outside every property's domain
+    for v in list(o["args"] or []) + [v for _, v in (o["kwargs"] or [])]:
+        for x in (v if isinstance(v, list) else [v]):
+            if isinstance(x, denote.Sym):
+                ss = sorted(x.syms())
+                for one in ss:
+                    vals = []
+                    for pt in (0.37, 1.91, -2.3):
+                        env_ = {t: 0.83 + 0.41 * k for k, t in enumerate(ss)}
+                        env_[one] = pt
+                        try:
+                            vals.append(complex(x.ev(env_)))
+                        except Exception:  # noqa
+                            vals = None
+                            break
+                    if vals and max(abs(vals[0] - w_) for w_ in vals[1:]) <= 1e-12 * max(1.0, abs(vals[0])):
+                        return "skip:symbol-cancels"
     st, p = common.loads(script)
     if st == "exc":
         return ("C02/grammar-driven:load-raises:" + type(p).__name__, common.exc_sig(p) + " ;; " + line.strip())
